@@ -28,6 +28,17 @@ Additional input families (same oracle; the failure key gets a suffix naming the
     SerifValueError (non-strings: with any exception) by all three joins WHATEVER the keys - every key
     pair of <= 2 rows per side gets every value, the 3-row pairs get three values each in rotation
     (key class '<cell>-near-miss-<family>-expect' / '<cell>-non-string-expect').
+  * expect values BUILT AT RUN TIME (FRESH_HOWS): each of the four values as a str object that is equal to, but
+    not the same object as, the source literal - ''.join(chars), .upper().lower(), an f-string of its halves,
+    decoded from bytes (what a value read from a config file / JSON / the command line is).  It is that value:
+    same decision table, same result (key class '<cell>-<value>-built-at-run-time-expect'); every key pair of
+    <= 2 rows per side gets every construction, the 3-row pairs one construction per (join, value) in rotation.
+  * several DISTINCT duplicated keys on the side that must be unique ('several-duplicated-keys'): key columns
+    holding two different keys twice each (every arrangement; thorough: plus a fifth row) over None / ints,
+    None / strs, None / dates, an object column mixing ints, strs and None, and two-column keys whose components
+    include None - keys Python cannot order among themselves.  The side that repeats is the right, the left or
+    both; the other side is empty, partly matching or holds every key once.  The exception must be
+    SerifValueError exactly when a required uniqueness fails (never a TypeError from handling the duplicates).
 """
 import inspect
 
@@ -56,9 +67,24 @@ NEAR_LABELS = list(NEAR_MISS)
 assert not any(isinstance(v, str) and v in VALID for v in NEAR_MISS.values())
 
 
+# how -> constructor of a str equal to the literal but a distinct (never interned) object
+FRESH_HOWS = {
+    'join': lambda v: ''.join(list(v)),
+    'lower': lambda v: v.upper().lower(),
+    'fstring': lambda v: f"{v.split('_to_')[0]}_to_{v.split('_to_')[1]}",
+    'decode': lambda v: str(v.encode('ascii'), 'ascii'),
+}
+FRESH_LABELS = [f'fresh:{how}:{v}' for v in VALID for how in FRESH_HOWS]
+
+KIND_TYPE.setdefault('objkey', object)                     # an object key column mixing ints and strs (and None)
+KIND_POOL.setdefault('objkey', {0: 1, 1: 'a', 2: 2, 3: 'b'})
+
+
 def label_class(label):
     if label in VALID or label == 'default':
         return label
+    if label.startswith('fresh:'):
+        return label.split(':')[2] + '-built-at-run-time'
     if label.startswith('nm:'):
         return 'near-miss-' + label.split(':')[1]
     if label.startswith('ns:'):
@@ -85,6 +111,9 @@ def near_miss_cases(tier):
 
 def expect_value(label, kind):
     """(is_passed, value) for a label."""
+    if label.startswith('fresh:'):
+        _, how, v = label.split(':')
+        return True, FRESH_HOWS[how](v)
     if label in NEAR_MISS:
         return True, NEAR_MISS[label]
     if label == 'default':
@@ -120,6 +149,81 @@ def cases(tier, seed):
                         yield {'op': kind, 'expect': label, 'kind': kd, 'lk': lk, 'rk': rk}
     yield from extra_cases(tier)
     yield from near_miss_cases(tier)
+    yield from fresh_expect_cases(tier)
+    yield from several_dup_cases(tier)
+
+
+def fresh_expect_cases(tier):
+    """The decision table once more with every valid expect value passed as a freshly built str object: key pairs
+    of <= 1 row per side get every (value, construction), pairs of <= 2 rows every value with one construction,
+    larger pairs one (value, construction) per join - all in rotation with the pair index."""
+    pool = [0, 1, None]
+    hi = 3 if tier == 'quick' else 4
+    seqs_ = _all_seqs(pool, hi)
+    hows = list(FRESH_HOWS)
+    idx = 0
+    for lk in seqs_:
+        for rk in seqs_:
+            idx += 1
+            size = max(len(lk), len(rk))
+            for ki, kind in enumerate(JOINS):
+                if size <= 1:
+                    combos = [(v, how) for v in VALID for how in hows]
+                elif size <= 2:
+                    combos = [(v, hows[(idx + ki + vi) % len(hows)]) for vi, v in enumerate(VALID)]
+                else:
+                    combos = [(VALID[(idx + ki) % len(VALID)], hows[(idx // len(VALID) + ki) % len(hows)])]
+                for v, how in combos:
+                    yield {'op': kind, 'expect': f'fresh:{how}:{v}', 'kind': 'int', 'lk': lk, 'rk': rk}
+
+
+def _several_dup_seqs(pool, n):
+    """Sequences of length n over pool in which at least two DIFFERENT values occur at least twice."""
+    return [list(c) for c in itertools.product(pool, repeat=n)
+            if sum(1 for v in pool if list(c).count(v) >= 2) >= 2]
+
+
+_OBJ_INTS, _OBJ_STRS = (0, 2), (1, 3)          # patterns of KIND_POOL['objkey'] that are ints / strs
+
+
+def _obj_mixed(seq):
+    """An 'objkey' column is an object column only if it holds an int AND a str (serif infers the dtype)."""
+    return not seq or (any(p in _OBJ_INTS for p in seq) and any(p in _OBJ_STRS for p in seq))
+
+
+def several_dup_cases(tier):
+    q = tier == 'quick'
+    labels = VALID + ['default']
+    single = [('int', [None, 0, 1, 2]), ('objkey', [None, 0, 1, 2, 3])] + ([] if q else [('str', [None, 0, 1, 2]), ('date', [None, 0, 1, 2])])
+    comp = [(['int', 'int'], [[0, None], [0, 0], [None, 0], [0, 1]])] + \
+           ([] if q else [(['str', 'int'], [[0, None], [0, 0], [None, 0], [1, 0]]), (['int', 'int'], [[0, None], [0, 0], [1, None], [None, None]])])
+    for kinds, pool in [([k], p) for k, p in single] + comp:
+        composite = len(kinds) > 1
+        obj = kinds == ['objkey']
+        dups = _several_dup_seqs(pool, 4)
+        if obj:
+            # None next to ints and strs needs a fifth row
+            dups = dups + [d for d in _several_dup_seqs([None, 0, 1], 5) if None in d][::(4 if q else 1)]
+        elif not q:
+            dups = dups + _several_dup_seqs(pool[:3], 5)
+        for seq in dups:
+            present = [v for v in pool if v in seq]
+            absent = [v for v in pool if v not in seq]
+            partial = [present[-1]] + absent[:1]
+            if obj and not _obj_mixed(partial):
+                partial.append(next(p for p in (_OBJ_STRS if partial[0] in _OBJ_INTS or partial[0] is None and partial[-1] in _OBJ_INTS else _OBJ_INTS)
+                                    if p not in partial))
+            others = [[], partial, list(pool)]
+            pairs = [(o, seq) for o in others] + [(seq, o) for o in others[1:]] + [(seq, seq)]
+            for lk, rk in pairs:
+                if obj and not (_obj_mixed(lk) and _obj_mixed(rk)):
+                    continue
+                for kind in JOINS:
+                    for label in labels:
+                        case = {'op': kind, 'expect': label, 'kind': '+'.join(kinds), 'lk': lk, 'rk': rk, 'family': 'several-duplicated-keys'}
+                        if composite:
+                            case['kinds'] = kinds
+                        yield case
 
 
 def _all_seqs(pool, hi):
@@ -286,6 +390,12 @@ def bound(tier):
              {'family': 'hash-colliding-keys', 'kinds': ['ihc1+ihc2 (4 tuples)', 'ihc2+str (3 tuples)'], 'max_left_rows': 3, 'max_right_rows': 3},
              {'family': 'filtered-empty-side', 'kinds': ['int (<=4 rows)', 'str (<=3)', 'ihc1 (<=3)'], 'key_values': '{None,0,1}',
               'zero_row_ctor': ['mask', 'slice']}]
+    x = x + [{'family': 'several-duplicated-keys', 'kinds': ['int', 'objkey (ints, strs, None in one object column)', 'int+int with None components']
+              + ([] if tier == 'quick' else ['str', 'date', 'str+int', 'objkey+int']),
+              'repeating_side_rows': '4 (two different keys twice each, every arrangement)' + ('' if tier == 'quick' else ' and 5'),
+              'repeating_side': ['right', 'left', 'both'], 'other_side': ['empty', 'one matching + one foreign key', 'every key once']},
+             {'family': 'built-at-run-time expect', 'constructions': list(FRESH_HOWS), 'key_values': '{None,0,1}',
+              'max_rows': 3 if tier == 'quick' else 4}]
     return {'key_sequences': b, 'extra_families': x, 'joins': JOINS,
             'expect': VALID + ['<omitted>'] + INVALID_MAIN + ['(every 7th pair in quick, every 5th in thorough:)'] + INVALID_MORE,
             'near_miss_expect(int keys {None,0,1}; all values on pairs of <=2 rows per side, 3 rotating values on the larger pairs up to '
@@ -298,6 +408,6 @@ if __name__ == '__main__':
               '(hence all key multisets, in every order) of the stated size: raises SerifValueError iff invalid expect or a '
               'required uniqueness fails; otherwise view(result) == view(many_to_many result); plus the hash-colliding-key and '
               'filtered-zero-row-side families of `bound.extra_families` over the same table; near-miss and non-string expect values '
-              '(whitespace, affixes, case, empty, substrings, separators; int / bool / list / tuple / bytes) must always be rejected. distinct = distinct '
+              '(whitespace, affixes, case, empty, substrings, separators; int / bool / list / tuple / bytes) must always be rejected; every valid value also as a str object built at run time (equal, not identical to the literal); uniqueness violations with several distinct, mutually unorderable duplicated keys. distinct = distinct '
               '(join, expect, kind, left-dup, right-dup, None-only dups, dup among matched / unmatched rows per side, empty sides)',
          bound=bound, nontrivial=nontrivial)
